@@ -50,12 +50,16 @@ type c16Tenant struct {
 
 type raceReport struct {
 	a, b string
+	// from: for each side, the authservice function that started the goroutine performing the access
+	// ("outside" if none did): survives renames inside the racing code path
+	from string
 	text string
 }
 
 var (
 	raceFrame = regexp.MustCompile(`^\s+(\S*istio-ecosystem/authservice/\S+)\(`)
-	raceHead  = regexp.MustCompile(`^(Write|Read|Previous write|Previous read|Atomic\S*|Previous atomic\S*) at 0x[0-9a-f]+ by (main )?goroutine`)
+	raceHead  = regexp.MustCompile(`^(Write|Read|Previous write|Previous read|Atomic\S*|Previous atomic\S*) at 0x[0-9a-f]+ by (main )?goroutine ?(\d*)`)
+	raceGo    = regexp.MustCompile(`^Goroutine (\d+) \(.*\) created at:`)
 )
 
 // parseRaces canonicalises race reports: for each of the two accesses the kind (read/write), the function
@@ -73,8 +77,26 @@ func parseRaces(text string) []raceReport {
 		if !strings.Contains(blk, "WARNING: DATA RACE") {
 			continue
 		}
-		var sides, vias []string
+		var sides, vias, gids []string
 		lines := strings.Split(blk, "\n")
+		// goroutine id -> first authservice function in its creation stack
+		created := map[string]string{}
+		for i := 0; i < len(lines); i++ {
+			m := raceGo.FindStringSubmatch(lines[i])
+			if m == nil {
+				continue
+			}
+			created[m[1]] = "outside"
+			for j := i + 1; j < len(lines) && strings.TrimSpace(lines[j]) != ""; j++ {
+				if !strings.HasPrefix(lines[j], "  ") || strings.HasPrefix(lines[j], "      ") {
+					continue
+				}
+				if f := fnOf(lines[j]); strings.Contains(f, "istio-ecosystem/authservice/") && !strings.Contains(f, "/verif/") {
+					created[m[1]] = f[strings.Index(f, "authservice/")+len("authservice/"):]
+					break
+				}
+			}
+		}
 		for i := 0; i < len(lines); i++ {
 			m := raceHead.FindStringSubmatch(lines[i])
 			if m == nil {
@@ -100,12 +122,20 @@ func parseRaces(text string) []raceReport {
 			}
 			sides = append(sides, kind+":"+access)
 			vias = append(vias, via)
+			gids = append(gids, m[3])
 		}
 		if len(sides) >= 2 {
-			sides, vias = sides[:2], vias[:2]
+			sides, vias, gids = sides[:2], vias[:2], gids[:2]
 			sort.Strings(sides)
 			sort.Strings(vias)
-			out = append(out, raceReport{a: sides[0] + "|" + sides[1], b: vias[0] + "+" + vias[1], text: blk})
+			from := []string{"outside", "outside"}
+			for k, g := range gids {
+				if f, ok := created[g]; ok {
+					from[k] = f
+				}
+			}
+			sort.Strings(from)
+			out = append(out, raceReport{a: sides[0] + "|" + sides[1], b: vias[0] + "+" + vias[1], from: from[0] + "+" + from[1], text: blk})
 		}
 	}
 	return out
@@ -591,14 +621,16 @@ func c16Prop(c *sim.Case) {
 		}
 		seen[sig] = true
 		c.Class(sig)
-		if c.IsKnown(sig) {
-			c.NoteKnown(sig, rp.a+" via "+rp.b)
+		// listed findings are matched on the pair, the authservice functions that led to it and the authservice
+		// functions that started the two goroutines
+		if full := sig + " from " + rp.from; c.IsKnown(full) {
+			c.NoteKnown(full, rp.a+" via "+rp.b)
 		} else {
 			unknown = append(unknown, rp)
 		}
 	}
 	for _, rp := range unknown {
-		c.Logf("unknown race pair: race:%s via %s", rp.a, rp.b)
+		c.Logf("unknown race pair: race:%s via %s from %s", rp.a, rp.b, rp.from)
 	}
 	if len(unknown) > 0 {
 		rp := unknown[0]
